@@ -82,4 +82,24 @@ PROPS = {
         ],
         "assumptions": ["annotation targets are entries that exist before the writers start"],
     },
+    "C05": {
+        "propfile": "PropC05.v",
+        "n": {"quick": 800, "thorough": 20000},
+        "corr": "policy.SignatureVerifier.Verify (+ dsse.VerifyEnvelope, gitobject.Verify) vs verify (Sig.v)",
+        "rule": "rules over 0-4 principals (single keys and multi-key persons, 1-2 of 6 real ed25519 keys each; one third with "
+                "shared keys; occasionally duplicate principal ids), thresholds -1..5, exhaustive flag, Git object in {none, signed by "
+                "pool key, unsigned, signature lifted from other content}, envelope absent or with 0-4 real DSSE signatures "
+                "(trusted/foreign signer, over this or another payload, key-id hint correct/empty/wrong, garbage, repeated). "
+                "SignatureVerifier built through an export shim with the principals in a chosen order. non-trivial = >=2 valid "
+                "signatures or a shared key",
+        "theorems": ["C05_sound", "C05_degenerate"],
+        "trusted": [
+            "symbolic cryptography: a signature verifies iff made by that key over exactly that content (unforgeability, ssh/sshsig "
+            "libraries assumed)",
+            "provider key ids within one principal are distinct (the removeIndex aliasing of the vendored dsse verifier is not modelled)",
+            "exactness for disjoint keys is evaluated by the check (must_accept) but not yet proved",
+            "Go map iteration order: the harness fixes the principal order; Person.Keys() order is irrelevant for distinct keys",
+        ],
+        "assumptions": ["ssh keys only (gpg / sigstore verification paths are not exercised)"],
+    },
 }
